@@ -13,3 +13,42 @@ def check(ctx):
                         "trickery analysis (analyze_with_blocks, inspect_frame, currently_exiting_context): the call must emit "
                         "exactly InspectionWarning(s), not raise, and its result must obey the same relaxed rule")
     m7.explore(ctx, "trickfault", 40, 1500, seed_off=7, quick_stride=3)
+
+    # the mode switch: Trickery.tla, every sequence of 5 set / extract operations on two threads, replayed on real threads
+    import json
+    from concurrent.futures import ThreadPoolExecutor
+    from ..common import BUILD, VERIF, MachineryError, available_interpreters, child_env, run
+    from ..tlc import run_tlc
+    ctx.explanation += ("; Trickery.tla models set_trickery_enabled and the caching self-test: every sequence of 4 (thorough 5) set / "
+                        "extract operations on two threads is replayed on real threads and the implementation each extraction "
+                        "used (identified from start_line / varname being filled) is compared with the spec's")
+    from ..tlc import derive_cfg
+    tcfg = "Trickery.cfg" if ctx.tier == "quick" else derive_cfg("Trickery.cfg", "Trickery5.cfg", {"MaxSteps": "5"})
+    r = ctx.tlc(run_tlc("Trickery", tcfg, workers=1, timeout=900, name="trick"), "mode switch, all sequences of 4 (thorough: 5) operations")
+    if not r.ok:
+        ctx.violation(f"model (Trickery): {r.violated}", r.trace_text[-1500:])
+        return
+    seen, behs = set(), []
+    for e in r.emitted:
+        k = json.dumps(e["acts"])
+        if k not in seen:
+            seen.add(k)
+            behs.append(e)
+    d = BUILD / "c20"
+    d.mkdir(parents=True, exist_ok=True)
+    (d / "trick.json").write_text(json.dumps({"behaviours": behs}))
+
+    def one(item):
+        v, py = item
+        opath = d / f"trick_out_{v}.json"
+        p, _ = run([py, str(VERIF / "harness/drivers/trickery_driver.py"), str(d / "trick.json"), str(opath)], timeout=900, env=child_env(v))
+        if p.returncode != 0:
+            raise MachineryError(f"trickery driver failed under {v}: {p.stderr[-1500:]}")
+        return v, json.loads(opath.read_text())
+
+    with ThreadPoolExecutor(4) as ex:
+        outs = dict(ex.map(one, available_interpreters().items()))
+    for v, o in outs.items():
+        ctx.replays += o["n"]
+        for mm in o["mismatches"]:
+            ctx.violation(f"[{v}] mode switch, operations {mm['acts']}: {mm['bad']}", mm)
